@@ -24,12 +24,12 @@ def make_checker(k, cache=None):
     return CHECKERS[k]()
 
 
-def gen_store_case(rng, k=None, npol=None, store=None):
+def gen_store_case(rng, k=None, npol=None, store=None, inq=None):
     k = k or pick(rng, ['KR', 'KX', 'KF', 'KU'])
     store = store or pick(rng, ['str', 'rule', 'mixed'] if rng.random() < 0.3 else
                           (['rule'] if k == 'KU' else ['str']))
     dictish = None if k == 'KU' else (rng.random() < 0.06)
-    inq = gen_inquiry(rng, dictish=dictish)
+    inq = inq if inq is not None else gen_inquiry(rng, dictish=dictish)
     if k != 'KU' and rng.random() < 0.9:
         for f in ('resource', 'action', 'subject'):
             if not isinstance(inq[f], str):
